@@ -11,7 +11,8 @@ use quanta::Instant;
 use crate::common::Snapshot;
 use crate::distribution::{Distribution, DistributionBuilder};
 use crate::formatting::{
-    key_to_parts, sanitize_metric_name, write_help_line, write_metric_line, write_type_line,
+    family_name, key_to_parts, sanitize_metric_name, write_help_line, write_metric_line,
+    write_type_line,
 };
 use crate::registry::GenerationalAtomicStorage;
 
@@ -117,12 +118,17 @@ impl Inner {
         let descriptions = self.descriptions.read().unwrap_or_else(PoisonError::into_inner);
 
         for (name, mut by_labels) in counters.drain() {
-            let unit = descriptions.get(name.as_str()).and_then(|(desc, unit)| {
-                write_help_line(&mut output, name.as_str(), desc);
-                *unit
-            });
+            // The HELP and TYPE lines must name the same family as the samples, unit suffix included.
+            let unit = descriptions
+                .get(name.as_str())
+                .and_then(|(_, unit)| *unit)
+                .filter(|_| self.enable_unit_suffix);
+            let family = family_name(name.as_str(), unit);
+            if let Some((desc, _)) = descriptions.get(name.as_str()) {
+                write_help_line(&mut output, family.as_str(), desc);
+            }
 
-            write_type_line(&mut output, name.as_str(), "counter");
+            write_type_line(&mut output, family.as_str(), "counter");
             for (labels, value) in by_labels.drain() {
                 write_metric_line::<&str, u64>(
                     &mut output,
@@ -131,19 +137,24 @@ impl Inner {
                     &labels,
                     None,
                     value,
-                    unit.filter(|_| self.enable_unit_suffix),
+                    unit,
                 );
             }
             output.push('\n');
         }
 
         for (name, mut by_labels) in gauges.drain() {
-            let unit = descriptions.get(name.as_str()).and_then(|(desc, unit)| {
-                write_help_line(&mut output, name.as_str(), desc);
-                *unit
-            });
+            // The HELP and TYPE lines must name the same family as the samples, unit suffix included.
+            let unit = descriptions
+                .get(name.as_str())
+                .and_then(|(_, unit)| *unit)
+                .filter(|_| self.enable_unit_suffix);
+            let family = family_name(name.as_str(), unit);
+            if let Some((desc, _)) = descriptions.get(name.as_str()) {
+                write_help_line(&mut output, family.as_str(), desc);
+            }
 
-            write_type_line(&mut output, name.as_str(), "gauge");
+            write_type_line(&mut output, family.as_str(), "gauge");
             for (labels, value) in by_labels.drain() {
                 write_metric_line::<&str, f64>(
                     &mut output,
@@ -152,20 +163,24 @@ impl Inner {
                     &labels,
                     None,
                     value,
-                    unit.filter(|_| self.enable_unit_suffix),
+                    unit,
                 );
             }
             output.push('\n');
         }
 
         for (name, mut by_labels) in distributions.drain() {
-            let unit = descriptions.get(name.as_str()).and_then(|(desc, unit)| {
-                write_help_line(&mut output, name.as_str(), desc);
-                *unit
-            });
+            let unit = descriptions
+                .get(name.as_str())
+                .and_then(|(_, unit)| *unit)
+                .filter(|_| self.enable_unit_suffix);
+            let family = family_name(name.as_str(), unit);
+            if let Some((desc, _)) = descriptions.get(name.as_str()) {
+                write_help_line(&mut output, family.as_str(), desc);
+            }
 
             let distribution_type = self.distribution_builder.get_distribution_type(name.as_str());
-            write_type_line(&mut output, name.as_str(), distribution_type);
+            write_type_line(&mut output, family.as_str(), distribution_type);
             for (labels, distribution) in by_labels.drain(..) {
                 let (sum, count) = match distribution {
                     Distribution::Summary(summary, quantiles, sum) => {
@@ -179,7 +194,7 @@ impl Inner {
                                 &labels,
                                 Some(("quantile", quantile.value())),
                                 value,
-                                unit.filter(|_| self.enable_unit_suffix),
+                                unit,
                             );
                         }
 
@@ -194,7 +209,7 @@ impl Inner {
                                 &labels,
                                 Some(("le", le)),
                                 count,
-                                unit.filter(|_| self.enable_unit_suffix),
+                                unit,
                             );
                         }
                         write_metric_line(
@@ -204,7 +219,7 @@ impl Inner {
                             &labels,
                             Some(("le", "+Inf")),
                             histogram.count(),
-                            unit.filter(|_| self.enable_unit_suffix),
+                            unit,
                         );
 
                         (histogram.sum(), histogram.count())
@@ -218,7 +233,7 @@ impl Inner {
                     &labels,
                     None,
                     sum,
-                    unit.filter(|_| self.enable_unit_suffix),
+                    unit,
                 );
                 write_metric_line::<&str, u64>(
                     &mut output,
@@ -227,7 +242,7 @@ impl Inner {
                     &labels,
                     None,
                     count,
-                    unit.filter(|_| self.enable_unit_suffix),
+                    unit,
                 );
             }
 
